@@ -26,11 +26,11 @@ type Execution struct {
 }
 
 type thread struct {
-	id     int
-	wake   chan struct{}
-	done   bool
-	body   func(yield func())
-	sched  *scheduler
+	id      int
+	wake    chan struct{}
+	done    bool
+	body    func(yield func())
+	sched   *scheduler
 	paniced string
 }
 
